@@ -72,6 +72,14 @@ static unsigned long g_seed = 1;   /* poison seed of the current history */
 static unsigned g_alloc;           /* allocation counter */
 static unsigned g_call;            /* call counter (stack / buffer patterns) */
 
+/* per-call watchdog on the CPU time the process consumes (a call that spins is a Hang event; a process that is merely starved
+   on a loaded machine is not) */
+#include <sys/time.h>
+static volatile sig_atomic_t ox_armed;
+static void ox_on_alarm(int sig) { (void)sig; if (ox_armed) { static const char m[] = "\n{\"k\":\"Hang\"}\n"; (void)!write(1, m, sizeof m - 1); _exit(97); } }
+static void ox_arm(int seconds) { struct itimerval it; memset(&it, 0, sizeof it); it.it_value.tv_sec = seconds; ox_armed = 1; setitimer(ITIMER_VIRTUAL, &it, NULL); }
+static void ox_disarm(void) { struct itimerval it; memset(&it, 0, sizeof it); setitimer(ITIMER_VIRTUAL, &it, NULL); ox_armed = 0; }
+
 static void die(const char *m) { fprintf(stderr, "hx_objects: %s\n", m); fflush(stdout); exit(3); }
 
 /* ---------------------------------------------------------------- poison, stack */
@@ -266,27 +274,27 @@ static int encode_any(unsigned char *st, int kind, int fmt, const opus_int16 *x1
    if (fmt == 0) {
       opus_int16 *x = (opus_int16 *)malloc(sizeof(opus_int16) * (size_t)tot);     /* exact-size copy */
       memcpy(x, x16, sizeof(opus_int16) * (size_t)tot);
-      dirty_stack(next_pat()); hx_arm(30);
+      dirty_stack(next_pat()); ox_arm(20);
       if (kind == 'e') ret = opus_encode((OpusEncoder *)st, x, n, out, maxb);
       else if (kind == 'E') ret = opus_multistream_encode((OpusMSEncoder *)st, x, n, out, maxb);
       else if (kind == 'J') ret = opus_projection_encode((OpusProjectionEncoder *)st, x, n, out, maxb);
-      hx_disarm(); free(x);
+      ox_disarm(); free(x);
    } else if (fmt == 1) {
       opus_int32 *x = (opus_int32 *)malloc(sizeof(opus_int32) * (size_t)tot);
       for (i = 0; i < tot; i++) x[i] = (opus_int32)x16[i] * 256;
-      dirty_stack(next_pat()); hx_arm(30);
+      dirty_stack(next_pat()); ox_arm(20);
       if (kind == 'e') ret = opus_encode24((OpusEncoder *)st, x, n, out, maxb);
       else if (kind == 'E') ret = opus_multistream_encode24((OpusMSEncoder *)st, x, n, out, maxb);
       else if (kind == 'J') ret = opus_projection_encode24((OpusProjectionEncoder *)st, x, n, out, maxb);
-      hx_disarm(); free(x);
+      ox_disarm(); free(x);
    } else {
       float *x = (float *)malloc(sizeof(float) * (size_t)tot);
       for (i = 0; i < tot; i++) x[i] = (float)x16[i] / 32768.0f;
-      dirty_stack(next_pat()); hx_arm(30);
+      dirty_stack(next_pat()); ox_arm(20);
       if (kind == 'e') ret = opus_encode_float((OpusEncoder *)st, x, n, out, maxb);
       else if (kind == 'E') ret = opus_multistream_encode_float((OpusMSEncoder *)st, x, n, out, maxb);
       else if (kind == 'J') ret = opus_projection_encode_float((OpusProjectionEncoder *)st, x, n, out, maxb);
-      hx_disarm(); free(x);
+      ox_disarm(); free(x);
    }
    g_call++;
    return ret;
@@ -295,7 +303,7 @@ static int encode_any(unsigned char *st, int kind, int fmt, const opus_int16 *x1
 static int decode_any(unsigned char *st, int kind, int fmt, const unsigned char *data, int len, void *pcm, int fsz, int fec)
 {
    int ret = OPUS_BAD_ARG;
-   dirty_stack(next_pat()); hx_arm(30);
+   dirty_stack(next_pat()); ox_arm(20);
    if (kind == 'd') {
       if (fmt == 0) ret = opus_decode((OpusDecoder *)st, data, len, (opus_int16 *)pcm, fsz, fec);
       else if (fmt == 1) ret = opus_decode24((OpusDecoder *)st, data, len, (opus_int32 *)pcm, fsz, fec);
@@ -309,7 +317,7 @@ static int decode_any(unsigned char *st, int kind, int fmt, const unsigned char 
       else if (fmt == 1) ret = opus_projection_decode24((OpusProjectionDecoder *)st, data, len, (opus_int32 *)pcm, fsz, fec);
       else ret = opus_projection_decode_float((OpusProjectionDecoder *)st, data, len, (float *)pcm, fsz, fec);
    }
-   hx_disarm();
+   ox_disarm();
    g_call++;
    return ret;
 }
@@ -464,7 +472,7 @@ static size_t fmt_size(int fmt) { return fmt == 0 ? sizeof(opus_int16) : fmt == 
 static int off_by_more_than_half(double got, double v) { double d = got - v; return d > 0.5 || d < -0.5; }
 static double sat16d(double v) { return v > 32767.0 ? 32767.0 : v < -32768.0 ? -32768.0 : v; }
 
-typedef struct { long m24, x24, m16a, m16b, m16h, over, pdiff, sover; } rel_t;
+typedef struct { long m24, x24, m16a, m16b, m16h, over, pdiff, sover, near; } rel_t;
 
 /* which output channel carries stream-channel j (mapping is a permutation in every layout used here) */
 static int out_channel_of(const obj_t *o, int j)
@@ -480,6 +488,8 @@ static void measure(obj_t *o, int fmt, const void *nat, const float *sf, int N, 
    int ch = o->ch, i, c, s;
    long tot = (long)N * ch;
    for (i = 0; i < tot; i++) if (sf[i] > 1.0f || sf[i] < -1.0f) r->over++;
+   /* samples whose float value is at or within 32 16-bit units of the 16-bit limits: where a 16-bit output has to saturate */
+   for (i = 0; i < tot; i++) if (sf[i] * 32768.0f > 32735.0f || sf[i] * 32768.0f < -32736.0f) r->near++;
    if (o->kind == 'P') {
       /* projection: 16-bit against the float output, measured in LSB (max over samples, capped), and whether any decoded
          stream sample went beyond +-1 (then the 16-bit path soft-clips or saturates the streams before the matrix) */
@@ -591,7 +601,7 @@ static void op_decode(int oi, int sid, int k0, int n, int mode)
       js_str("cnts", cnts); js_str("rngs", rngs); js_str("ds", ds);
       js_str("scnts", scnts); js_str("srngs", srngs); js_str("sds", sds);
       js_int("m24", rel.m24); js_int("x24", rel.x24); js_int("m16a", rel.m16a); js_int("m16b", rel.m16b); js_int("m16h", rel.m16h);
-      js_int("over", rel.over); js_int("fx", FX); js_int("pdiff", rel.pdiff); js_int("sover", rel.sover);
+      js_int("over", rel.over); js_int("fx", FX); js_int("pdiff", rel.pdiff); js_int("sover", rel.sover); js_int("near", rel.near);
       js_close();
    }
 }
@@ -644,7 +654,7 @@ int main(int argc, char **argv)
 {
    static char line[512]; int i;
    (void)argc; (void)argv;
-   hx_watchdog_init();
+   signal(SIGVTALRM, ox_on_alarm);
    setvbuf(stdout, NULL, _IOLBF, 0);      /* an abort must not lose the events before it */
    FX = strstr(opus_get_version_string(), "-fixed") != NULL;
    while (fgets(line, sizeof line, stdin)) {
